@@ -3,12 +3,14 @@ import json
 import os
 import random
 import shutil
+import threading
 import time
 
 from . import common as C
 from . import engine as E
 from . import gen as G
 from . import props_engine as PE
+from . import syscalls as SC
 
 CRASH_CFGS = [
     {"backend": "fd", "mode": "strict", "pe": 1, "fsync": "ms200"},
@@ -281,7 +283,7 @@ class Disk:
             if fid is None:
                 return
             data = bytes.fromhex(e["data"]) if e.get("has_data") else b"\0" * e["len"]
-            if self.o_sync:
+            if e.get("osync", self.o_sync):
                 # O_SYNC write: durable on return, together with everything needed to read it back
                 self._flush(fid)
                 self._write(self.files[fid]["durable"], e["off"], data)
@@ -396,10 +398,16 @@ class Disk:
                 fh.write(buf)
 
 
+LAST_BINDING = {}
+
+
 def run_powerloss(behs, tier, tag):
     binp = C.build_engine("tiny")
     root = C.ensure_dir(os.path.join(C.BUILD, "runs", "%s-%d" % (tag, os.getpid())))
     g = {"max_batch": 6}
+    binding, binding_lock = {}, threading.Lock()
+    LAST_BINDING.clear()
+    traced = SC.available()
 
     def job(ix):
         beh = behs[ix]
@@ -408,12 +416,24 @@ def run_powerloss(behs, tier, tag):
         spec = os.path.join(d, "beh.json")
         open(spec, "w").write(json.dumps(beh))
         dry_out, dry_dir, iolog = os.path.join(d, "dry.ndjson"), os.path.join(d, "dry"), os.path.join(d, "io.json")
-        rc, o = C.sh([binp, "crash", "child-run", "--beh", spec, "--dir", dry_dir, "--out", dry_out, "--at", "0",
-                      "--dump-io", iolog], timeout=300, env={"WALRUS_QUIET": "1"})
+        cmd = [binp, "crash", "child-run", "--beh", spec, "--dir", dry_dir, "--out", dry_out, "--at", "0", "--dump-io", iolog]
+        stfile = os.path.join(d, "strace.txt")
+        rc, o = C.sh(SC.wrap(cmd, stfile) if traced else cmd, timeout=300, env={"WALRUS_QUIET": "1"}, cwd=d)
         if not os.path.exists(iolog):
             raise C.ToolError("power-loss dry run failed rc=%s %s" % (rc, o[-400:]))
         io = json.load(open(iolog))
         events, marks = io["events"], io["marks"]
+        if traced:
+            # bind the hook events to the system calls really made (vlib/syscalls.py): unbacked events leave the stream
+            events, marks, rep = SC.reconcile(events, marks, stfile, d, dry_dir, beh["cfg"]["backend"])
+            if rep["unhooked"] or rep["background_unhooked"]:
+                raise C.ToolError("hook incomplete: workload %s makes system calls on the data directory that no hook event announces: %s"
+                                  % (beh["id"], json.dumps((rep["unhooked"] + rep["background_unhooked"])[:3])))
+            with binding_lock:
+                for k in ("matched", "hook_events_compared", "osync_writes", "plain_writes"):
+                    binding[k] = binding.get(k, 0) + rep[k]
+                binding["traced_runs"] = binding.get("traced_runs", 0) + 1
+                binding.setdefault("unbacked", []).extend([dict(u, workload=beh["id"]) for u in rep["unbacked"]][:5])
         evs = [json.loads(l) for l in open(dry_out) if l.strip()]
         # acknowledged API events per completed operation
         per_op, cur_ops, pending = [], [], []
@@ -470,6 +490,7 @@ def run_powerloss(behs, tier, tag):
         allg.update(gr)
         streams.append(st)
     shutil.rmtree(root, ignore_errors=True)
+    LAST_BINDING.update(binding)
     return allg, streams
 
 
@@ -621,11 +642,15 @@ def c10(tier):
         "workloads": len(behs), "contract_model": mc, "trace_tlc_states": stats["states_distinct"], "rejected_traces": len(failed),
         "design_model_WalrusIO": io_mc, "io_streams_validated_against_WalrusIO": len(streams), "io_stream_tlc_states": io_states,
         "drift": len(drift),
+        "syscall_binding": dict(LAST_BINDING) or "strace unavailable: hook events taken on trust",
     }
     return ck.finish("fault_enumeration", coverage, PE.COMMON_ASSUMPTIONS + [
         "power-loss model of the property statement: explicit syncs (fsync, msync, O_SYNC writes, directory fsync) are durable, every other "
         "write/create/rename independently may or may not be; the reconstruction is done outside the engine from the recorded I/O trace",
-        "hook completeness (every durable mutation goes through a hook event) is assumed; events of background threads are taken in log order"])
+        "hook events are bound to real system calls by running every workload under strace (vlib/syscalls.py): caller-thread events without "
+        "their system call are removed before the power-loss model is applied, writes carry the observed O_SYNC status, msync counts only "
+        "as MS_SYNC, an unannounced system call on the data directory is a tool error; io_uring writes are visible only as io_uring_enter "
+        "(count of submissions), their offsets and bytes are the hook's; events of background threads are taken in log order"])
 
 
 REGISTRY["C10"] = c10
